@@ -176,7 +176,7 @@ def dur(e, mainnet):
 
 def mk_event(i, blk, tx=None, **kw):
     e = dict(id=i, blk=blk, tx=tx if tx is not None else i, gov=True, ei=0, ok=True, tb=True, cl=0, kind="transfer", tok="none",
-             claim="none", bad="", tgt=0)
+             claim="none", bad="", tgt=0, plen=0, pid=0)
     e.update(kw)
     return e
 
@@ -321,6 +321,24 @@ class WGen:
         kw.setdefault("cl", self.r.choice(self.CLS))
         return self.emit(blk, **kw)
 
+    RECIPIENT_SIZES = [0, 1, 20, 31, 32, 33, 64]
+
+    def transfer(self, blk, size=None, **kw):
+        """a token transfer whose recipient has `size` bytes: the contract emits 101 + size payload bytes, id 1"""
+        size = self.r.choice(self.RECIPIENT_SIZES) if size is None else size
+        return self.good(blk, kind="transfer", plen=101 + size, **kw)
+
+    def odd_payload(self, blk, what, **kw):
+        """decodable events whose payload is EMPTY or a single byte (every payload id): anyone can publish them"""
+        kw.setdefault("cl", 0)
+        if what == "empty":
+            return self.good(blk, kind="other", plen=-1, **kw)
+        if what == "1b-transfer":
+            return self.good(blk, kind="transfer", plen=1, **kw)
+        if what == "1b-attest":          # payload id 2 but not an attestation's 100 bytes: never acceptable, no call needed
+            return self.good(blk, kind="attest", tok="t1", claim="badlen", plen=1, **kw)
+        return self.good(blk, kind="other", plen=1, pid={"1b-0": 0, "1b-3": 3, "1b-255": 255}[what] or 256, **kw)
+
     def raise_height(self, by=None):
         self.op(op="height", h=self.w.height + (by if by is not None else self.r.choice([1, 1, 2, 3, 16, 300])))
 
@@ -356,8 +374,10 @@ class WGen:
             b = self.block()
             for _ in range(r.choice([1, 1, 2, 3])):
                 k = r.random()
-                if k < 0.5:
+                if k < 0.25:
                     self.good(b)
+                elif k < 0.5:
+                    self.transfer(b, cl=r.choice(self.CLS))
                 elif k < 0.62:
                     self.good(b, tb=False)
                 elif k < 0.72:
@@ -559,6 +579,38 @@ class WGen:
             self.step(None)
             self.op(op="req", tx=first["tx"])
         return finish_scenario(self.sc, "gen", "reobs:multi")
+
+    def xfer(self):
+        """C08 wall-clock floor of MAINNET token transfers for every recipient size (payload = 101 + size bytes) and
+        consistency levels below / at / above the floor, in blocks on both sides of max(cl, 205) * 16 s, on the polling path
+        and on the re-observation path; non-transfers of the same lengths next to them follow cl * 16 s."""
+        r = self.r
+        self.new(mainnet=r.random() < 0.85, page=r.choice([1, 2, 3, 5]))
+        self.toks()
+        pre = r.random() < 0.3               # emitted before the watcher starts: re-observation alone
+        if not pre:
+            self.step("count", 1)
+        evs = []
+        for _ in range(r.choice([1, 2, 2])):
+            b = self.block(ts=r.choice([-5000, -4300, -3500, -1000, -1000, -100]))
+            for _ in range(r.choice([1, 2, 3])):
+                k = r.random()
+                cl = r.choice([0, 1, 2, 10, 50, 204, 205, 206, 254])
+                if k < 0.75:
+                    evs.append(self.transfer(b, cl=cl))
+                elif k < 0.9:
+                    evs.append(self.good(b, kind="other", plen=r.choice([101, 133, 165]), cl=cl))
+                else:
+                    evs.append(self.odd_payload(b, r.choice(["empty", "1b-transfer"]), tb=True, cl=cl))
+        self.raise_height(300)
+        if pre:
+            self.step("count", 1)
+        for e in r.sample(evs, min(len(evs), r.choice([1, 2, 3]))):
+            self.step(None)
+            self.op(op="req", tx=e["tx"])
+        self.step(None)
+        self.raise_height(1)
+        return finish_scenario(self.sc, "gen", "xfer")
 
     def lag(self):
         """C08 height rule under a stale / lagging height: the node serves the events of a new block while the height it
@@ -791,7 +843,8 @@ class WGen:
         b = self.block(ts=-5000)
         pos = r.randrange(0, 3)
         n = r.choice([2, 3, 4])
-        culprit = r.choice(["malformed", "malformed", "tokshape", "tokshape", "foreign", "index", "attest-foreign", "cl255", "mismatch"])
+        culprit = r.choice(["malformed", "malformed", "tokshape", "tokshape", "foreign", "index", "attest-foreign", "cl255", "mismatch",
+                            "empty-payload", "empty-payload", "one-byte-payload"])
         for i in range(n):
             if i == min(pos, n - 1):
                 if culprit == "malformed":
@@ -806,6 +859,10 @@ class WGen:
                     self.emit(b, ei=1)
                 elif culprit == "cl255":
                     self.good(b, cl=255)
+                elif culprit == "empty-payload":
+                    self.odd_payload(b, "empty", tb=r.random() < 0.4)
+                elif culprit == "one-byte-payload":
+                    self.odd_payload(b, r.choice(["1b-transfer", "1b-attest", "1b-0", "1b-3", "1b-255"]), tb=r.random() < 0.4)
                 else:
                     self.good(b, kind="attest", tok="t3", claim="m1", cl=0)
             else:
@@ -1208,6 +1265,25 @@ def pinned(prop):
         sc["src"], sc["family"] = "pinned", "pinned:reobs-malformed-" + bad
         res.append(sc)
     if prop == "C08":
+        # mainnet token transfers of every recipient size, cl below the floor: held in a 1000-s-old block (polling path and
+        # re-observation), forwarded from a 5000-s-old block
+        for mode in ("poll", "reobs-only"):
+            g = WGen(random.Random(0)).new(mainnet=True, page=3)
+            g.w.height = g.base_h = 100
+            g.sc["pollMs"] = 3
+            if mode == "poll":
+                g.step("count", 1)
+            young, old_ = g.block(ts=-1000), g.block(ts=-5000)
+            held = [g.transfer(young, size=sz, cl=k % 3) for k, sz in enumerate(WGen.RECIPIENT_SIZES)]
+            held.append(g.odd_payload(young, "1b-transfer", tb=True, cl=1))
+            for sz in WGen.RECIPIENT_SIZES:
+                g.transfer(old_, size=sz, cl=1)
+            g.raise_height(10)
+            if mode != "poll":
+                g.step("count", 1)
+            for e in held:
+                g.step(None); g.op(op="req", tx=e["tx"])
+            done(g, "mainnet-transfer-recipient-sizes-" + mode)
         # the core contract emits another event index in the re-observed tx: only WormholeMessage events count
         g = start()
         b = g.block(ts=-5000)
@@ -1349,6 +1425,24 @@ def pinned(prop):
         g.good(b3, cl=0)
         g.step(None); g.raise_height(1)
         done(g, "reobservation-during-polling")
+        # decodable events with an EMPTY payload or a single payload byte (every payload id), from a foreign sender and from
+        # the token bridge, alone on the page and between well-formed token-bridge messages
+        for k, what in enumerate(["empty", "empty", "1b-transfer", "1b-attest", "1b-0", "1b-3", "1b-255"]):
+            tbs = (k % 2 == 1)
+            for alone in (True, False):
+                g = start(page=1 if alone else 3)
+                b = g.block(ts=-5000)
+                if not alone:
+                    g.good(b, cl=0)
+                g.odd_payload(b, what, tb=tbs)
+                if not alone:
+                    g.good(b, cl=0)
+                g.step(None); g.raise_height(2)
+                g.step(None)
+                b2 = g.block(ts=-5000)
+                g.good(b2, cl=0)
+                g.step(None); g.raise_height(1)
+                done(g, "payload-%s-%s-%s" % (what, "tb" if tbs else "foreign", "alone" if alone else "between"))
         # same target chain, increasing sequences, decreasing confirmation delays: the later sequences are final first
         for name, step_by_one in (("stepwise", True), ("same-round", False)):
             g = start(page=3)
